@@ -311,10 +311,17 @@ func TestC01(t *testing.T) {
 func runC02Stress(c E1Case) (out core.Outcome) {
 	out.Classes = []string{"stress", "kind:" + c.Kind}
 	for round := 0; round < c.Stress; round++ {
-		tr := mock.NewTransport(nil, c.Buffered, nil)
+		tr := mock.NewTransport(nil, c.Buffered || c.Kind == "sync", nil)
+		tr.SlowWrites = c.Kind == "sync" // a write takes a moment: other writers queue up at the write lock meanwhile
 		pl := netty.NewPipeline()
 		ex := &countingExec{}
-		ch := netty.NewAsyncWriteChannel(imax(1, c.Queue), c.Kind == "qblock")(1, context.Background(), pl, tr, ex)
+		factory := netty.NewAsyncWriteChannel(imax(1, c.Queue), c.Kind == "qblock")
+		if c.Kind == "sync" {
+			factory = netty.NewChannel()
+		}
+		ch := factory(1, context.Background(), pl, tr, ex)
+		expired, cancelExpired := context.WithDeadline(context.Background(), time.Now().Add(-time.Second))
+		cancelExpired() // its deadline has passed anyway
 		pl.AddLast(netty.InboundHandlerFunc(func(ctx netty.InboundContext, m netty.Message) {
 			buf := make([]byte, 64)
 			if _, err := m.(io.Reader).Read(buf); err != nil {
@@ -337,6 +344,11 @@ func runC02Stress(c E1Case) (out core.Outcome) {
 					switch op.Op {
 					case "writev", "ctxwritev":
 						n, err = ch.Writev([][]byte{p[:2], p[2:]})
+					case "ctxwrite1":
+						// a write given up at once (its deadline has passed): it fails and contributes nothing
+						var k int
+						k, err = ch.(ctxWriter).CtxWrite1(expired, p)
+						n = int64(k)
 					default:
 						var k int
 						k, err = ch.Write1(p)
@@ -420,11 +432,15 @@ func TestC02(t *testing.T) {
 		ID: "C02",
 		Gen: func(t *rapid.T) E1Case {
 			if rapid.IntRange(0, 399).Draw(t, "stress") == 237 { // a mid-range value: rapid favours the ends of a range
-				c := E1Case{Kind: rapid.SampledFrom([]string{"qblock", "qblock", "qnonblock"}).Draw(t, "kind"), Queue: rapid.SampledFrom([]int{1, 1, 2}).Draw(t, "queue"), Stress: 400}
+				c := E1Case{Kind: rapid.SampledFrom([]string{"qblock", "qblock", "qnonblock", "sync"}).Draw(t, "kind"), Queue: rapid.SampledFrom([]int{1, 1, 2}).Draw(t, "queue"), Stress: 400}
+				entries := []string{"write1", "writev"}
+				if c.Kind == "sync" {
+					entries = []string{"write1", "writev", "ctxwrite1", "ctxwrite1"}
+				}
 				for w := rapid.IntRange(2, 3).Draw(t, "writers"); w > 0; w-- {
 					task := E1Task{Role: "writer"}
 					for i := rapid.IntRange(5, 20).Draw(t, "calls"); i > 0; i-- {
-						task.Ops = append(task.Ops, E1Op{Op: rapid.SampledFrom([]string{"write1", "writev"}).Draw(t, "entry"), Sizes: []int{5}})
+						task.Ops = append(task.Ops, E1Op{Op: rapid.SampledFrom(entries).Draw(t, "entry"), Sizes: []int{5}})
 					}
 					c.Tasks = append(c.Tasks, task)
 				}
